@@ -99,11 +99,16 @@ def interpret_resolver(p):
                 v = ev(a, env)
                 if v in (WIRE, ABS_ANY, ABS_CLEAN, REL_ANY, REL_CLEAN):
                     return v
-                if v == ANCHORSTR:
-                    return ABS_ANY   # may be '//'-anchored: no entry rooted at '/' is its ancestor
+                if v in (ANCHORSTR, "S_NORM_DS"):
+                    return ABS_ANY   # may be '//'-anchored: no entry rooted at '/' is its ancestor, relative_to('/') raises
                 return TOP
             if isinstance(fn, ast.Name) and fn.id == "str" and e.args:
-                return {REL_CLEAN: S_REL_CLEAN, REL_ANY: S_REL_ANY}.get(ev(e.args[0], env), TOP)
+                return {REL_CLEAN: S_REL_CLEAN, REL_ANY: S_REL_ANY, ABS_ANY: "S_ABS", ABS_CLEAN: "S_ABS", WIRE: "S_WIRE"}.get(ev(e.args[0], env), TOP)
+            if d.endswith("normpath") and e.args:
+                v = ev(e.args[0], env)
+                if v in ("S_ABS", ABS_ANY, ABS_CLEAN):
+                    return "S_NORM_DS"   # '..' folded, but POSIX normpath keeps exactly two leading slashes
+                return TOP
             if isinstance(fn, ast.Attribute):
                 v = ev(fn.value, env)
                 if fn.attr == "relative_to" and e.args and (ev(e.args[0], env) == ROOTSTR or ev(e.args[0], env) == ABS_CLEAN and src(e.args[0]).endswith("('/')")):
@@ -309,6 +314,7 @@ class PathProv:
             labels = {self.def_label(k, n, x, f, expr.id, depth + 1) for k, n, x in ds}
             return labels.pop() if len(labels) == 1 else "MIXED:" + ",".join(sorted(labels))
         if isinstance(expr, ast.Attribute):
+            expr = deep_expand(p, expr, fn) if isinstance(expr.value, ast.Name) and unique_def(fn, expr.value.id) is not None and expr.attr in ("home_path", "current_directory", "rename_from") else expr
             if expr.attr == "parent":
                 base = self.label(expr.value, fn, depth + 1)
                 return base if base in ("REAL", "VIRTUAL", "CWD") else "OTHER:" + src(expr)
